@@ -137,6 +137,16 @@ func RunHistoryCfg(c *run.Ctx, cfg sim.Config, o HistOpts, hooks sim.Hooks, onOp
 			s.Label("signal_withheld")
 		}
 		h := s.PlayHand(plan)
+		if s.Stall != "" && h.Outcome == "open-refused" {
+			// the seat manager refused to rotate (recorded C04 finding, or a table that
+			// really has fewer than two eligible players): the history ends here
+			s.Label("ended_open_refused")
+			c.Ch.Note("open refused: %s", s.Stall)
+			if o.AfterHand != nil && h.SettledT != nil {
+				o.AfterHand(s, h)
+			}
+			return s
+		}
 		if s.Stall != "" {
 			stalls++
 			s.Label("stalled")
